@@ -681,7 +681,7 @@ def cut_alias(F):
                 "alias expansion recurses into the alias body without a visited-stack test: a recursive alias never terminates")
 
 
-def declared_everywhere(F, res):
+def declared_everywhere(F, res, rule="Q6"):
     """Q6: every definition interned by module_scope_with_map_query is also recorded in `declarations`, on every path of
     its loop iteration. dependency_order lists a file's functions from `declarations`, and infer_function_query expects
     (`.expect(..)`) to find every interned function in one of the groups: a function that is interned but not declared —
@@ -716,14 +716,14 @@ def declared_everywhere(F, res):
             leak = fn.can_reach(b, [tail], avoid=mine) if mine else True
             ok = bool(mine) and not leak
             why = "recording pushes in this loop: %d; the iteration can end without one: %s" % (len(mine), leak)
-        res.ob("Q6", "declared/%s" % c.rsplit("intern_", 1)[-1], "every %s interned here is pushed into ModuleScope.declarations on every path of the iteration"
+        res.ob(rule, "declared/%s" % c.rsplit("intern_", 1)[-1], "every %s interned here is pushed into ModuleScope.declarations on every path of the iteration"
                % c.rsplit("intern_", 1)[-1], ok, where=fn.loc(t["ln"]), how=why)
     res.floor("definition kinds interned in module_scope_with_map_query", n, 4)
     # ... and the inference groups are formed over `declarations` (every declaration), not over `values` (one definition
     # per name: the earlier of two functions with one name, or a function shadowed by a constant, would be in no group)
     dq = [F.fns[p_] for p_ in F.with_helpers("ide::def::scope::dependency_order_query", depth=1) if p_.startswith("ide::def::scope::")]
     cs = {FL.short(callee(t) or callee_def(t)) for g in dq for b, t in g.calls()}
-    res.ob("Q6", "groups-over-declarations", "dependency_order_query lists the file's functions from ModuleScope::declarations() (every "
+    res.ob(rule, "groups-over-declarations", "dependency_order_query lists the file's functions from ModuleScope::declarations() (every "
            "declaration), not from the name-indexed value table", "ModuleScope::declarations" in cs and "ModuleScope::values" not in cs,
            where=dq[0].loc(), how="enumerates through %s" % sorted(c for c in cs if c.startswith("ModuleScope::")))
 
@@ -1063,6 +1063,50 @@ def cycles_are_cut(F, res, sccs=None, rule="Q10"):
         res.ob(rule, "cut/import-closure/every-import/%d" % k, "the import closure follows every import statement of a module (the table module_imports(), "
                "nothing selected from it): two modules that import each other in any form are seen as a cycle", whole and not sel,
                where=cq.loc(t["ln"]), how="the module name looked up comes from module_imports(): %s; selecting calls: %s" % (whole, sel))
+    if cq is not None and cq.blocks:
+        # the closure and the scope query look an import up by the same thing. The closure is what the scope query asks before it
+        # follows an import: an import it resolves and the closure does not (`import util/b` looked up as `b` there) is a cycle
+        # the cut does not see
+        def key_fields(fn):
+            out = []
+            units = [fn] + [F.fns[c] for c in F.closures_of(fn.path) if c in F.fns]
+            for u in units:
+                du = FL.Defs(u)
+                for b_, t_ in u.calls():
+                    if (callee(t_) or "").endswith("file_for_module_name") and len(t_["args"]) >= 2:
+                        out.append(frozenset(str(x) for x in FL.fields_feeding(F, u, du, t_["args"][-1], "ModuleImport")))
+            return out
+        msq = F.fns.get("ide::def::scope::module_scope_with_map_query")
+        a_, b_ = key_fields(cq), key_fields(msq) if msq is not None else []
+        res.ob(rule, "cut/import-closure/same-key", "import_closure_query looks an imported module up by the same field(s) of the import as "
+               "module_scope_with_map_query does (what one resolves the other follows)", bool(a_) and bool(b_) and set(a_) == set(b_), where=cq.loc(),
+               how="closure looks up by %s, the scope query by %s" % (sorted(map(sorted, a_)), sorted(map(sorted, b_))))
+        # the walk ends when the work list is empty, not before: the only way out of the loop is the empty answer of the list
+        exits = []
+        loops_by_head = {}
+        for tl, hd in cq.back_edges():
+            loops_by_head.setdefault(hd, set()).update(cq.natural_loop(tl, hd))
+        for hd, lp in sorted(loops_by_head.items()):
+            for x in sorted(lp):
+                for y in cq.succ(x):
+                    if y not in lp and not cq.blocks[y].get("cleanup"):
+                        exits.append((x, y))
+        pops = {t_.get("target") for b_, t_ in cq.calls() if FL.short(callee(t_) or callee_def(t_) or "").rsplit("::", 1)[-1] in ("pop", "pop_front", "pop_back", "next")}
+        dq2 = FL.Defs(cq)
+        bad_exit = []
+        for x, y in exits:
+            tt = cq.term(x)
+            ok = False
+            if tt["k"] == "switch":
+                o_ = dq2.origin_op(tt["op"])
+                if o_.get("k") == "rv" and o_["rv"].get("k") == "discr":
+                    po = dq2.origin_place(o_["rv"]["place"])
+                    ok = po.get("k") == "call" and FL.short(callee(po["t"]) or callee_def(po["t"]) or "").rsplit("::", 1)[-1] in ("pop", "pop_front", "pop_back", "next")
+            if not ok and tt["k"] not in ("drop",):
+                bad_exit.append(cq.loc(tt.get("ln")) if tt.get("ln") else str(x))
+        res.ob(rule, "cut/import-closure/walks-to-the-end", "the walk over the imports leaves its loop only when the work list is empty (a module met twice is "
+               "skipped, not the end of the walk)", bool(exits) and not bad_exit, where=cq.loc(), how="%d exit edge(s), all on the empty answer of the work list" % len(exits)
+               if not bad_exit else "other exits: %s" % bad_exit)
     known["ModuleScopeQuery+ModuleScopeWithMapQuery"] = scope_cut
     known["InferFunctionGroupQuery+InferFunctionQuery"] = infer_cut
     for comp in sccs:
